@@ -274,9 +274,10 @@ VH_GROUP(ba_range)
 // ---------------------------------------------------------------------------------------------------
 template <class C, class It> static void iter_laws(vh::Ctx& ctx, const char* kind, long W)
 {
-    static unsigned char buf[2048 + 16];
     const long P = C::P();
-    const size_t MID = 1024;
+    const size_t MID = size_t(W * P) / 8 + 64;               // the window [-W,W] pixels stays inside the buffer
+    std::vector<unsigned char> store(2 * MID + 32, 0);
+    unsigned char* buf = store.data();
     long fails = 0;
     for (int sb = 0; sb < 4; ++sb)
     {
@@ -333,9 +334,10 @@ template <class C, class It> static void iter_laws(vh::Ctx& ctx, const char* kin
 // a write through the advanced iterator lands on pixel n of the model (mutable iterators)
 template <class C> static void iter_write(vh::Ctx& ctx, long W)
 {
-    static unsigned char buf[2048 + 16], before[2048 + 16], mask[2048 + 16];
     const long P = C::P();
-    const size_t MID = 1024, LEN = 2048;
+    const size_t MID = size_t(W * P) / 8 + 64, LEN = 2 * MID;   // pixel n in [-W,W] (+ 16 bytes for the model's loads) stays inside
+    std::vector<unsigned char> s_buf(LEN + 16, 0), s_before(LEN + 16, 0), s_mask(LEN + 16, 0);
+    unsigned char *buf = s_buf.data(), *before = s_before.data(), *mask = s_mask.data();
     long fails = 0;
     for (int sb = 0; sb < 2; ++sb)
     {
